@@ -58,6 +58,21 @@ func (x *VC) resolveType(s string, pkg *types.Package) types.Type {
 		}
 	case s == "interface{}":
 		return types.NewInterfaceType(nil, nil)
+	case strings.HasPrefix(s, "struct{") && strings.HasSuffix(s, "}"):
+		// anonymous struct of exported fields, e.g. struct{Map map[string]timedType; Size int}
+		var fs []*types.Var
+		for _, f := range splitTop(s[len("struct{"):len(s)-1], ';') {
+			f = strings.TrimSpace(f)
+			if f == "" {
+				continue
+			}
+			sp := strings.IndexAny(f, " \t")
+			if sp < 0 {
+				x.refuse("struct field %q in specification type", f)
+			}
+			fs = append(fs, types.NewField(token.NoPos, pkg, f[:sp], x.resolveType(f[sp+1:], pkg), false))
+		}
+		return types.NewStruct(fs, nil)
 	}
 	if o := types.Universe.Lookup(s); o != nil {
 		if tn, ok := o.(*types.TypeName); ok {
